@@ -17,6 +17,7 @@ import (
 	"github.com/polynetwork/poly/common"
 	scom "github.com/polynetwork/poly/native/service/cross_chain_manager/common"
 	ccmeth "github.com/polynetwork/poly/native/service/cross_chain_manager/eth"
+	ccmquorum "github.com/polynetwork/poly/native/service/cross_chain_manager/quorum"
 	"github.com/polynetwork/poly/native/service/governance/side_chain_manager"
 	"github.com/polynetwork/poly/native/service/header_sync/eth"
 	"github.com/polynetwork/poly/native/storage"
@@ -215,7 +216,13 @@ func (f *evm) Exec(r *hx.Run, op []string) string {
 			hx.Hex(param.ToContractAddress), hx.Hex([]byte(param.Method)), hx.Hex(param.Args)}, ":")
 	}
 	f.depositOracle(r, d, st, hdrs, res)
-	return res + " " + f.siblings(r, d, st, hdrs, proof, res)
+	// the quorum router's proof check, against the main-chain block of that height (its own header check is C29/C30)
+	quorum := "na"
+	if blk, _, err := eth.GetHeaderByHeight(newService(db, nil), uint64(d.height), powChain); err == nil {
+		quorum = depositClass(ccmquorum.VerifVerifyFromQuorumTx(proof, d.extra, toGeth(blk), side))
+		r.Hist("evm.quorum." + quorum)
+	}
+	return res + " " + f.siblings(r, d, st, hdrs, proof, res) + " quorum=" + quorum
 }
 
 func sameTable(a, b string) bool {
